@@ -257,6 +257,21 @@ class Oracle:
         self.idxw = idxw
         refsem.INDEX_W = idxw  # refsem reads this global at call time; one index width per worker process
         self.machine = refsem.Machine(E.ModuleOp([]))
+        self.noncanon = {}  # (width, python value) -> tag of the interpreter op that produced this non-canonical int
+
+    def note_results(self, op, inputs, got):
+        """Remember in-range results that are not signed-canonical (x != to_signed(x)): legal by the property
+        (right bit pattern, signless range) but consumers that do not normalise their operands break on them."""
+        for g, r in zip(got, op.results):
+            if refsem.is_int(r.type) and type(g) in (int, bool):
+                w = self.width(r.type)
+                if g != S(g, w):
+                    tag = op.name
+                    if op.name == "arith.shli" and type(g) is int and g == int(inputs[0]) << int(inputs[1]):
+                        tag = "shli-unwrapped"
+                    self.noncanon.setdefault((w, int(g)), tag)
+                    return True
+        return False
 
     def width(self, t):
         return self.idxw if type(t).__name__ == "IndexType" else t.width.data
@@ -343,19 +358,27 @@ class Oracle:
             p = op.properties["predicate"].value.data
             w = self.width(op.operands[0].type)
             a, b = (int(x) & ((1 << w) - 1) for x in inputs)
-            canonical = all(type(x) is int and x == S(x, w) for x in inputs)
+            canonical = all(x == S(x, w) for x in inputs)
             if (p in (6, 7, 8, 9) and canonical and (S(a, w) < 0) != (S(b, w) < 0)
                     and bool(g) == bool(refsem.CMPI[p - 4](a, b, w))):
                 return "cmpi-unsigned-uses-signed"
             pyop = [lambda x, y: x == y, lambda x, y: x != y, lambda x, y: x < y, lambda x, y: x <= y,
                     lambda x, y: x > y, lambda x, y: x >= y][p if p < 6 else p - 4]
-            if not canonical and bool(g) == bool(pyop(inputs[0], inputs[1])):
-                # an operand is not signed-canonical (a python bool produced by the interpreter's own cmpi) and the
-                # answer is what comparing the raw python values gives
+            if (not canonical and all(type(x) is bool for x in inputs if x != S(x, w))
+                    and bool(g) == bool(pyop(inputs[0], inputs[1]))):
+                # the only non-canonical operands are python bools (what the interpreter's own cmpi returns for a
+                # true i1) and the answer is what comparing the raw python values gives
                 return "cmpi-compares-python-representation"
-            if not canonical:
-                return f"wrong-result:arith.cmpi:{CMPI_NAMES[p]}:noncanonical-operand"
-            return f"wrong-result:arith.cmpi:{CMPI_NAMES[p]}"
+            if canonical:
+                return f"wrong-result:arith.cmpi:{CMPI_NAMES[p]}"
+        nonc = [(self.width(o.type), int(x)) for x, o in zip(inputs, op.operands)
+                if refsem.is_int(o.type) and type(x) in (int, bool) and x != S(x, self.width(o.type))]
+        if nonc and kind in ("value", "range"):
+            # an operand is an in-range but not signed-canonical value: name the op that produced it
+            tags = sorted({self.noncanon.get(k, "unknown-producer") for k in nonc})
+            if tags == ["shli-unwrapped"]:
+                return "shli-result-not-wrapped"
+            return "noncanonical-result-breaks-consumer:" + "+".join(tags)
         if n == "arith.shli" and kind == "range":
             w = self.width(t)
             a, b = inputs
@@ -465,15 +488,14 @@ class OpRunner:
             return True
         R.inc("op_results_compared")
         R.inc("compared:" + op.name)
-        for g, r in zip(got, op.results):
-            if refsem.is_int(r.type) and (type(g) is not int or g != S(g, O.width(r.type))):
-                R.inc("observed_noncanonical_int_results:" + op.name)  # e.g. python bools from cmpi; not a violation
         R.cells.add(shash(("cell",) + cell))
         cmpres = O.compare(op, inputs, got, ref[1])
         if cmpres:
             key, summary, _ = cmpres
             R.viol(key, summary, {"op": label, "operands": [jval(v) for v in inputs],
                                   "got": [jval(g) for g in got], "replay_job": replay})
+        elif O.note_results(op, inputs, got):
+            R.inc("observed_noncanonical_int_results:" + op.name)  # e.g. python bools from cmpi; not a violation
         return True
 
 
@@ -531,20 +553,6 @@ def work_int(E, R, job):
                     break
             if stop:
                 break
-    if tspec == "i1":
-        # the interpreter's own cmpi returns python bools: i1 operands in BOTH representations it produces
-        reps = [True, False, -1, 0]
-        for label, op, kind, desc in ops:
-            if kind != "ab":
-                continue
-            for row in itertools.product(reps, repeat=2):
-                if all(type(v) is int for v in row):
-                    continue
-                cell = (label, "i1-bool") + tuple(repr(v) for v in row)
-                rj = dict(desc, kind="op1", tspec=tspec, idxw=idxw, operands=[jval(v) for v in row])
-                R.inc("i1_bool_representation_cases")
-                if not run.case(f"{label}:i1(bool operands)", op, row, cell, rj):
-                    break
     R.res["samples"].append({"op_level": f"{len(ops)} int ops on {tag}", "mode": mode, "operand_pairs": len(pairs),
                              "first_pairs": [list(p) for p in pairs[:3]]})
 
@@ -693,6 +701,79 @@ def work_cast(E, R, job):
                 run.case(f"arith.constant:{fs}", op, (), ("arith.constant", fs, sign_class(v)),
                          {"kind": "op1", "name": "arith.constant", "tspec": fs, "idxw": idxw, "operands": [], "lit": jval(v)})
     R.res["samples"].append({"op_level": f"cast/constant group {which}", "index_width": idxw})
+
+
+def work_chain(E, R, job):
+    """Two-op chains: every in-range but NOT signed-canonical value that one of the interpreter's own ops returned
+    (python bools from cmpi, unwrapped shifts, ...) is fed to every consumer op in both operand positions."""
+    tspec, idxw = job["tspec"], job.get("idxw", 64)
+    rng = random.Random(job["seed"])
+    t = mk_type(E, tspec)
+    w = idxw if tspec == "index" else int(tspec[1:])
+    run = OpRunner(E, R, idxw)
+    O = run.O
+    tag = tspec + (f"@{idxw}" if tspec == "index" else "")
+    rj = {"kind": "chain", "tspec": tspec, "idxw": idxw, "seed": job["seed"], "nrand": job.get("nrand", 0)}
+    vals = int_values(w, "exh" if w <= 4 else "bnd", rng, 0)
+    if w > 4:
+        vals = sorted(set(vals[:: max(1, len(vals) // 14)] + [S(x, w) for x in (0, 1, -1, 1 << (w - 2), (1 << (w - 1)) - 1, -(1 << (w - 1)))]))
+    src, ops = build_int_ops(E, tspec, t)
+    run.keep.append(src)
+    two = [(label, op, desc) for label, op, kind, desc in ops if kind == "ab"]
+    # ---- producers
+    before = R.res["evaluations"]
+    for label, op, desc in two:
+        if len(op.results) != 1 or op.results[0].type != t:
+            continue
+        for row in itertools.product(vals, repeat=2):
+            if not run.case(f"{label}:{tag}", op, row, (label, tag, "chain-producer") + tuple(map(sign_class, row)), rj):
+                break
+    others = [x for x in ("i8", "i32", "i64", "index") if x != tspec]
+    casts_in = []
+    for o_ in others:
+        if (o_ == "index") != (tspec == "index"):
+            wo = idxw if o_ == "index" else int(o_[1:])
+            so = E.test.TestOp(result_types=[mk_type(E, o_)])
+            run.keep.append(so)
+            cop = E.arith.IndexCastOp(so.results[0], t)
+            casts_in.append(cop)
+            for v in int_values(wo, "bnd", rng, 0) + [rand_int(rng, wo) for _ in range(job.get("nrand", 20))]:
+                if not run.case(f"arith.index_cast[{o_}->{tag}]", cop, (v,), ("arith.index_cast", o_, tag, "chain-producer", sign_class(v)), rj):
+                    break
+    if tspec == "i1":
+        s8 = E.test.TestOp(result_types=[E.builtin.i8, E.builtin.i8])
+        run.keep.append(s8)
+        for p in range(10):
+            cop = E.arith.CmpiOp(s8.results[0], s8.results[1], p)
+            for row in itertools.product([0, 1, -1, 127, -128], repeat=2):
+                run.case(f"arith.cmpi[{CMPI_NAMES[p]}]:i8", cop, row, ("arith.cmpi", p, "i8", "chain-producer") + tuple(map(sign_class, row)), rj)
+    R.inc("chain_producer_results_scanned", R.res["evaluations"] - before)
+    found = sorted(v for (ww, v) in O.noncanon if ww == w)
+    R.inc("chain_noncanonical_values_found", len(found))
+    for v in found:
+        R.add("chain_noncanonical_producers", f"{O.noncanon[(w, v)]}:{tag}")
+    if len(found) > 120:
+        found = found[:: len(found) // 120 + 1]
+    # the representation the producer really returned (bool for cmpi)
+    reps = [True if (w == 1 and v == 1 and O.noncanon[(w, v)] == "arith.cmpi") else v for v in found]
+    # ---- consumers
+    so = E.test.TestOp(result_types=[t])
+    run.keep.append(so)
+    casts_out = [(f"arith.index_cast[{tag}->{o_}]", E.arith.IndexCastOp(so.results[0], mk_type(E, o_)))
+                 for o_ in others if (o_ == "index") != (tspec == "index")]
+    for v in reps:
+        for label, op, desc in two:
+            for y in vals:
+                for row in ((v, y), (y, v)):
+                    R.inc("chain_consumer_cases")
+                    cell = (label, tag, "chain-consumer", "noncanonical-lhs" if row[0] is v else "noncanonical-rhs", sign_class(y))
+                    if not run.case(f"{label}:{tag} (operand produced by {O.noncanon[(w, int(v))]})", op, row, cell, rj):
+                        break
+        for label, cop in casts_out:
+            R.inc("chain_consumer_cases")
+            run.case(f"{label} (operand produced by {O.noncanon[(w, int(v))]})", cop, (v,), (label, "chain-consumer"), rj)
+    R.res["samples"].append({"chain": tag, "noncanonical_values_fed_to_consumers": [jval(v) for v in reps[:8]],
+                             "producers": sorted({O.noncanon[(w, int(v))] for v in reps})})
 
 
 def work_op1(E, R, job):
@@ -1223,6 +1304,8 @@ class Monitor:
         R.inc("compared_in_programs:" + name)
         bad = O.compare(op, inputs, res.values, ref[1])
         if bad is None:
+            if O.note_results(op, inputs, res.values):
+                R.inc("prog_observed_noncanonical_int_results:" + name)
             return res
         key, summary, repaired = bad
         self.interventions += 1
@@ -1414,6 +1497,9 @@ def plan(tier, seed):
             jobs.append({"kind": "float", "tspec": spec, "nrand": 12 if q else 60, "seed": base + 80 + k, "part": [p, nparts]})
     for k, (which, idxw) in enumerate([("intcast", 64), ("intcast", 32), ("fpcast", 64), ("const", 64), ("const", 32)]):
         jobs.append({"kind": "cast", "which": which, "idxw": idxw, "nrand": 12 if q else 150, "seed": base + 90 + k})
+    for k, (spec, idxw) in enumerate([("i1", 64), ("i2", 64), ("i4", 64), ("i8", 64), ("i32", 64), ("i64", 64),
+                                      ("index", 32), ("index", 64)]):
+        jobs.append({"kind": "chain", "tspec": spec, "idxw": idxw, "seed": base + 70 + k, "nrand": 20 if q else 200})
     nprog_jobs, nper, rows = (24, 22, 6) if q else (64, 800, 8)
     for j in range(nprog_jobs):
         jobs.append({"kind": "prog", "seed": base + 1000 + j, "n": nper, "rows": rows})
@@ -1425,7 +1511,7 @@ def work(job):
     R = Recorder()
     kind = job["kind"]
     {"int": work_int, "float": work_float, "cast": work_cast, "op1": work_op1, "prog": work_prog,
-     "prog1": work_prog1}[kind](E, R, job)
+     "prog1": work_prog1, "chain": work_chain}[kind](E, R, job)
     R.res["sets"].setdefault("registered_impls", sorted(f"{v}:{k}" for k, v in E.registered.items()))
     R.res["sets"].setdefault("impl_labels", list(E.impl_labels))
     R.inc("shards_" + kind)
